@@ -13,7 +13,7 @@ Ingredients
     evaluation of the atoms (a classical, incomplete but sound check; no solver).
 Anything the prover does not understand leaves the site *undischarged* (fail closed).
 """
-from mirlite import callee, callee_res, ty_str, op_place
+from mirlite import callee, callee_res, ty_str, op_place, widening_conversion
 from flow import Tracer, NPlace, proj_key
 from expr import simplify, show, walk, strip_ref
 
@@ -296,6 +296,9 @@ class VEx:
             ts = ty_str(t["f"]["a"][0])
             if ts in SIZE_OF:
                 return ("const", SIZE_OF[ts])
+        w = widening_conversion(t)
+        if w:
+            return ("cast", self._operand(t["args"][0], bb, depth), w[0], "IntToInt", w[1])
         args = tuple(self._operand(a, bb, depth) for a in t["args"])
         ga = tuple(ty_str(x) for x in (t.get("f") or {}).get("a", []))
         return ("call", n, args, bb, ga)
@@ -613,9 +616,13 @@ class Prover:
             if not ds or l in self.vx.mw:
                 return None
             for d in ds:
-                if d[2] != "assign" or d[3]["p"]["p"]:
+                if d[2] == "call" and not d[3]["dest"]["p"] and widening_conversion(d[3]):
+                    # `let x = T::from(y)` / `y.into()` between integers: same as `y as T`
+                    r = self.interval(self.vx._call(d[3], d[0], 0))
+                elif d[2] != "assign" or d[3]["p"]["p"]:
                     return None
-                r = self.interval(self.vx.rvalue(d[3]["rv"], d[0]))
+                else:
+                    r = self.interval(self.vx.rvalue(d[3]["rv"], d[0]))
                 if r is None:
                     return None
                 lo = r[0] if lo is None else min(lo, r[0])
